@@ -691,19 +691,21 @@ def explore(cx, atom_eval, start=None, stop=()):
     return out
 
 
-def explore_sym(cx, atom_eval, transfer, state0=(), on_edge=None, start=None, on_undecided=None):
+def explore_sym(cx, atom_eval, transfer, state0=(), on_edge=None, start=None, on_undecided=None, node_aware=False):
     """explore() with a rule-defined symbolic state carried along each path.
     state: a hashable value (e.g. a sorted tuple of (local, symbolic value));
     atom_eval(expr, state) -> True / False / None   decides atomic conditions in that state;
     transfer(node, state) -> state                  effect of a statement / loop head on the state;
     on_edge(test node, label, state) -> state       what taking that edge of a test teaches (optional);
     on_undecided(test node, state)                  called when a test forks (a rule may refuse conditions it does not model).
+    node_aware: atom_eval is called as atom_eval(expr, state, node) with the CFG node the expression is evaluated in.
     Boolean locals are tracked as in explore(). -> set of (node id, state) reached; the walk is exhaustive over the finite
     state space the rule defines (the rule is responsible for keeping it finite)."""
     cfg = cx.cfg
+    cur = [None]
 
     def ev(e, env, st):
-        v = atom_eval(e, st)
+        v = atom_eval(e, st, cur[0]) if node_aware else atom_eval(e, st)
         if v is not None:
             return v
         if isinstance(e, ast.Constant) and isinstance(e.value, (bool, type(None))):
@@ -743,6 +745,7 @@ def explore_sym(cx, atom_eval, transfer, state0=(), on_edge=None, start=None, on
         out.add((n.id, st))
         env = dict(envt)
         st2 = st
+        cur[0] = n
         if n.kind == 'stmt' and isinstance(n.ast, (ast.Assign, ast.AnnAssign, ast.AugAssign)):
             tg = n.ast.targets if isinstance(n.ast, ast.Assign) else [n.ast.target]
             for t in tg:
